@@ -337,8 +337,11 @@ def judge_selection(ctx, flow, caller, node, cand, label):
     cn = C.stmt_node(ctx, caller, node)
     loop, idx, sibs = candidate_loop(ctx, caller, node, cand)
     it_term = flow.term(loop.iter, caller) if loop is not None else frozenset()
+    # the mapping / list that is iterated (for `index[key]` the index, not the key the metafile supplies)
+    bases = frozenset().union(*[x[1] if x[0] in ("sub", "elem") and isinstance(x[1], frozenset) else frozenset([x]) for x in it_term]) if it_term else frozenset()
+    bases = frozenset().union(*[x[2] if x[0] == "meth" and x[1] in ("get", "items", "values") and isinstance(x[2], frozenset) else frozenset([x]) for x in bases]) if bases else bases
     from_index = any((x[0] == "param" and x[2] in ("contents",)) or (x[0] == "ext" and x[1] in ("os.listdir", "os.walk", "os.scandir")) or (x[0] == "attr" and x[2] == "contents")
-                     for x in walk_terms(it_term))
+                     for x in walk_terms(bases))
     if loop is None or not from_index:
         ctx.violated("C14.3", caller, "the copy source %r is not drawn from the search index: %s" % (
             cand, "no enclosing candidate loop binds it" if loop is None else "the loop iterates over " + show(it_term, maxdepth=2)[:80]), node)
@@ -472,7 +475,7 @@ def piece_nodes_cover_bytes(ctx):
             ctx.undecided("C14.4", fn, "cannot show that the piece node covers at least one byte (%s)" % (unk[0][1] if unk else "no definition of stop reaches"), call)
         else:
             ctx.holds("C14.4", fn, "the piece node covers at least one byte of its file or reads to its end (%s)" % "; ".join(sorted({v[1] for v in verdicts})), call)
-    ctx.floor("piece-node construction sites in the v1 piece map", 2, n_sites)
+    ctx.floor("piece-node construction sites in the v1 piece map", 1, n_sites)
 
 
 def _implied(test, lab, atom):
